@@ -124,6 +124,23 @@ def rand_entrypoint(rng) -> str:
     return ''.join(rng.choice(NAME_CHARS) for _ in range(n))
 
 
+UNITISH = [
+    {'prim': 'Unit'}, {'prim': 'Unit', 'annots': ['%a']}, {'prim': 'Unit', 'annots': [':t', '%b']}, {'prim': 'Unit', 'annots': ['@v']},
+    {'prim': 'unit'}, {'prim': 'Pair', 'args': [{'prim': 'Unit'}, {'prim': 'Unit'}]}, {'prim': 'Some', 'args': [{'prim': 'Unit'}]},
+    {'prim': 'None'}, {'prim': 'True', 'annots': ['%x']}, [], [{'prim': 'Unit'}], {'int': '0'}, {'string': ''}, {'string': 'Unit'}, {'bytes': ''},
+    {'bytes': '030b'}, {'prim': 'UNIT'},
+]
+
+
+def rand_unitish(rng):
+    import copy
+    return copy.deepcopy(rng.choice(UNITISH))
+
+
+# the same Micheline expression Unit spelled with empty lists (legal JSON, accepted by the node)
+UNIT_SPELLINGS = [{'prim': 'Unit', 'args': []}, {'prim': 'Unit', 'annots': []}, {'prim': 'Unit', 'args': [], 'annots': []}]
+
+
 def rand_script(rng):
     code = [{'prim': 'parameter', 'args': [{'prim': 'unit'}]}, {'prim': 'storage', 'args': [{'prim': rng.choice(['unit', 'nat', 'bytes'])}]},
             {'prim': 'code', 'args': [[{'prim': 'CDR'}, {'prim': 'NIL', 'args': [{'prim': 'operation'}]}, {'prim': 'PAIR'}]]}]
@@ -166,8 +183,9 @@ def rand_content(rng, kind: str, source=None, unset=False) -> dict:
             pass
         elif k < 0.3:
             c['parameters'] = {'entrypoint': 'default', 'value': {'prim': 'Unit'}}
-        elif k < 0.4:
-            c['parameters'] = {'entrypoint': rng.choice(['default', 'root', 'Unit']), 'value': rng.choice([{'prim': 'Unit'}, {'prim': 'unit'}, [], {'int': '0'}])}
+        elif k < 0.5:  # values around Unit x entrypoints around default: only (default, plain unannotated Unit) may be elided
+            c['parameters'] = {'entrypoint': rng.choice(['default', 'default', 'default', 'root', 'stake', 'Unit', 'defaul', 'default_']),
+                               'value': rand_unitish(rng)}
         else:
             c['parameters'] = {'entrypoint': rand_entrypoint(rng), 'value': rand_micheline(rng)}
     elif kind == 'origination':
